@@ -169,6 +169,12 @@ def service_cases(draw, tier="quick", http=False):
             # records registered only after the graph / apps were built and had answered once (the service holds its
             # converter by reference and must answer for the converter as it is at query time)
             "late": min(draw(st.sampled_from([0, 0, 1, 2])), len(recs))}
+    # further URIs looked up on the SAME graph before and together with the main one (the answer for a URI must not
+    # depend on what was looked up before it): prefer URIs of other, nested prefixes
+    more = []
+    for _ in range(draw(st.integers(0, 3))):
+        more.append(draw(st.sampled_from(valid_ups)) + draw(st.sampled_from(["1", "a/b", "x_1", ""])))
+    case["more_uris"] = more
     if http:
         case["accept"] = draw(accept_headers())["header"]
     return case
@@ -253,6 +259,34 @@ def check_graph(case, stats: Stats) -> None:
             got = {str(getattr(row, free)) for row in rows}
             if got != want:
                 raise Violation(f"{phase} query shape {name} binding ?{case['bound']} to <{case['uri']}> over <{case['query_predicate']}> returned ?{free} = {sorted(got)!r}, expected {sorted(want)!r}\n{q}")
+    # a sequence of lookups on the same graph, then all of them in one VALUES block: every URI keeps its own answer
+    seq = [u for u in case.get("more_uris", []) if not any(ch in INVALID_IRI_CHARS for ch in u)] + [case["uri"]]
+    if len(seq) > 1 and case["query_predicate"] in (case["predicates"] or [OWL_SAMEAS]):
+        b, f = case["bound"], free
+        for order in (seq, list(reversed(seq))):
+            per_uri = {}
+            for u in order:
+                want_u, _ = _expected(dict(case, uri=u), recs)
+                per_uri[u] = want_u
+                stats.ev()
+                q = f"SELECT ?{f} WHERE {{ VALUES ?{b} {{ <{u}> }} ?s <{case['query_predicate']}> ?o }}"
+                with warnings.catch_warnings():
+                    warnings.simplefilter("ignore")
+                    got = {str(getattr(row, f)) for row in graph.query(q, processor=processor)}
+                if got != want_u:
+                    raise Violation(f"lookup sequence {order!r}: <{u}> returned ?{f} = {sorted(got)!r}, expected {sorted(want_u)!r}")
+            stats.ev()
+            values = " ".join(f"<{u}>" for u in order)
+            for q in (f"SELECT ?s ?o WHERE {{ VALUES ?{b} {{ {values} }} ?s <{case['query_predicate']}> ?o }}",
+                      f"SELECT ?s ?o WHERE {{ ?s <{case['query_predicate']}> ?o }} VALUES ?{b} {{ {values} }}"):
+                with warnings.catch_warnings():
+                    warnings.simplefilter("ignore")
+                    rows = list(graph.query(q, processor=processor))
+                got_pairs = {(str(getattr(r, b)), str(getattr(r, f))) for r in rows}
+                want_pairs = {(u, x) for u in order for x in per_uri[u]}
+                if got_pairs != want_pairs:
+                    raise Violation(f"VALUES block {order!r}: pairs {sorted(got_pairs)!r}, expected {sorted(want_pairs)!r}\n{q}")
+        stats.cls("several-uris-on-one-graph")
     _classify(case, lm, stats)
 
 
@@ -333,7 +367,7 @@ SUBS = [
     Sub(name="negotiation", check=check_negotiation, strategy=lambda tier: accept_headers(tier), n={"quick": 4000, "thorough": 20000},
         required_classes=("nt:whitespace+q+2supported", "header:compact")),
     Sub(name="graph", check=check_graph, strategy=lambda tier: service_cases(tier), n={"quick": 200, "thorough": 600},
-        required_classes=("recognised", "unrecognised", "other-predicate", "nt:queried-uri-is-synonym-rendering", "nt:invalid-iri-synonym-filtered", "converter-extended-after-graph-built")),
+        required_classes=("recognised", "unrecognised", "other-predicate", "nt:queried-uri-is-synonym-rendering", "nt:invalid-iri-synonym-filtered", "converter-extended-after-graph-built", "several-uris-on-one-graph")),
     Sub(name="http", check=check_http, strategy=lambda tier: service_cases(tier, http=True), n={"quick": 60, "thorough": 200},
         required_classes=("recognised",)),
 ]
